@@ -193,6 +193,8 @@ def job(j):
             st["samples"].append({"history": rec["steps"], "expected_owner_per_engine": rec["answers"]})
         if mm and len(st["viol"]) < 400:
             genrun.add_viol(st["viol"], ({"kind": "registry-leak", "first": mm[0][:120]}, {"history": rec["steps"], "mismatches": mm}))
+            if genrun.enough(st["viol"], "C17"):
+                raise StopIteration
 
     res = tlc.run("MC_registry.tla", cfg, on_line=on_line, workers=1, timeout=1500)
     return {"job": j, "tlc": [genrun.tlc_summary(cfg, res)], "evaluations": st["n"], "distinct": list(st["distinct"]),
